@@ -206,6 +206,24 @@ def random_traces(ctx, tier, seed):
             events += [pre, ev]
             meta += [None, (ops, sigma)]
             graded += 1
+            # the same mesh object graded again with another exponent after a few more bisections
+            if ev["exc"] == "" and len(ev["post"]) < cap // 3 and h % 2 == 0:
+                sigma2 = [s_ for s_ in (1, 1.5, 2) if s_ != sigma][h % 2]
+                ops2 = list(ops) + [("grade", sigma)]
+                for s in range(3):
+                    order = ml.project(mesh, lay)
+                    cands = [k for k in order if k[4] < 9 and k[5] < 7]
+                    if not cands:
+                        break
+                    op = ("bisect", rng.choice(cands), rng.randrange(2))
+                    ml.apply_op(mesh, lay, op)
+                    ops2.append(op)
+                pre2 = rm.reset_event(mesh, lay, False)
+                ev2 = graded_event(mesh, lay, sigma2, cap)
+                if ev2 is not None:
+                    events += [pre2, ev2]
+                    meta += [None, (ops2, sigma2)]
+                    graded += 1
         if not events:
             continue
         bad, jres = rm.judge(lay, events, timeout=3000)
